@@ -239,6 +239,11 @@ static void foreign_cases(const string& type, const string& ord, const string& r
   constexpr bool fl = std::is_floating_point_v<T>;
   vector<T> as;
   for (double d : {0.0, 1.0, 7.0, 10.0, 100.0, 500.0, 1000.0}) as.push_back((T)d);
+  // negative (for unsigned types: wrapped) left operands: signed remainder / division keep the dividend's sign
+  if constexpr (std::is_integral_v<T>)
+    for (int64_t d : {-1, -3, -7, -100, -1000, -32769}) as.push_back((T)d);
+  else
+    for (double d : {-1.0, -3.0, -7.5, -100.25}) as.push_back((T)d);
   for (const char* opc : {"+=", "-=", "*=", "/=", "%="}) {
     string op = opc;
     for (T a : as)
@@ -282,6 +287,12 @@ template <typename W, typename T>
 static void foreign_all(const string& type, const string& ord) {
   foreign_cases<W, T, int32_t>(type, ord, "i32", {1, 2, 3, -1, 0x10002, 0x10003, 65536, 70000, -65537});
   foreign_cases<W, T, int64_t>(type, ord, "i64", {1, -1, 3, 0x100000002LL, 0x100000003LL, (1LL << 40) + 3, -(1LL << 33) - 1});
+  // operands NARROWER than the field and of the other signedness (they are promoted / converted to the field's type)
+  foreign_cases<W, T, uint8_t>(type, ord, "u8", {1, 2, 3, 4, 8, 128, 255});
+  foreign_cases<W, T, uint16_t>(type, ord, "u16", {2, 3, 4, 256, 32768, 65535});
+  foreign_cases<W, T, uint32_t>(type, ord, "u32", {2u, 3u, 8u, 65536u, 0x80000000u, 0xFFFFFFFFu});
+  foreign_cases<W, T, int8_t>(type, ord, "i8", {(int8_t)-1, (int8_t)2, (int8_t)-3, (int8_t)-128, (int8_t)127});
+  foreign_cases<W, T, float>(type, ord, "flt", {0.5f, 2.0f, 1.5f, 0.25f});
   if constexpr (sizeof(T) >= 4 || std::is_floating_point_v<T>)
     foreign_cases<W, T, double>(type, ord, "dbl", {1.5, 0.5, 2.5, 2.0, 0.25, 3.75, 1.0});
   else
